@@ -10,8 +10,8 @@ Local Open Scope N_scope.
      - ASCII runs (each digit pair encoded as a pair or as two single characters, bytes >= 128 via Upper Shift),
      - Base256 runs (any length 1..1555 with a one- or two-codeword length field, or, as the last segment, the
        run-to-the-end-of-symbol form),
-     - C40 and Text runs over arbitrary bytes (basic set, Shift 1/2/3, Upper Shift for bytes >= 128; optionally one
-       Shift-1 filler value completing the last triple), ended by Unlatch or -- at the end of the symbol -- by
+     - C40 and Text runs over arbitrary bytes (basic set, Shift 1/2/3, Upper Shift for bytes >= 128; optionally a filler
+       completing the last triple: one Shift-1 value, or Shift 2 + Upper Shift), ended by Unlatch or -- at the end of the symbol -- by
        nothing, possibly followed by one last ASCII-encoded codeword,
      - X12 runs over the X12 alphabet with the same two ways of ending,
      - EDIFACT runs over the characters 32..94, ended by the unlatch value 31 in any of the four positions of a group
@@ -59,9 +59,9 @@ Print Assumptions C04_c40_tables.
    rest on the independent reference encoder tools/props/refenc.py, which draws random legal streams with its own
    reading of the standard; the implementation, tied to this model by the correspondence, must decode each. *)
 Example C04_example :
-  let script := [SAscii [AChar 65; APair 49 50; AUpper 200]; SB256 [0; 255; 129]; SC40 false [72; 105; 33; 200] true TUnlatch;
+  let script := [SAscii [AChar 65; APair 49 50; AUpper 200]; SB256 [0; 255; 129]; SC40 false [72; 105; 33; 200] 1 TUnlatch;
                  SX12 [65; 49; 13] TUnlatch; SEdifact [65; 66; 67; 68; 69; 32] TUnlatch; SEdifact [94; 64; 33; 63] TUnlatch;
-                 SC40 true [97; 98; 99] false TEnd; SAscii [AChar 66]] in
+                 SC40 true [97; 98; 99] 0 TEnd; SAscii [AChar 66]] in
   script_ok script 0 = true /\
   decode_data (stream script 0) = Ok [65; 49; 50; 200; 0; 255; 129; 72; 105; 33; 200; 65; 49; 13; 65; 66; 67; 68; 69; 32; 94; 64; 33; 63; 97; 98; 99; 66] /\
   script_ok [SEdifact [65; 66; 67; 68] TEnd; SAscii [AChar 69; AChar 70]] 0 = true /\
